@@ -501,12 +501,18 @@ def run_reentrant_checks(ctx, pid):
             continue
         alive = {}
         for item in o.split(' ; '):
-            mm = re.match(r'^(\w)\[([^\]]*)\](\S*) \{([^}]*)\} stale=(\S+)$', item)
+            mm = re.match(r'^(\w)\[([^\]]*)\](\S*) \{([^}]*)\} stale=(\S+) nl=(\S+)$', item)
             if mm is None:
                 ctx.fail('unparsable output', inp, '', item[:200], {'kind': 'harness'})
                 break
-            kind, evs, note, tracks, stale = mm.groups()
+            kind, evs, note, tracks, stale, nl = mm.groups()
             bad = None
+            if pid == 'C14':
+                if nl != '-':
+                    ctx.fail('with a subscriber acting from inside its callback: ' + nl, dict(inp, at=item[:60]),
+                             'the n most recently updated tracks', nl[:200], {'kind': 'reentrant-nlatest', 'mode': mode})
+                    break
+                continue
             for e in [x for x in evs.split(',') if x]:
                 m_ = int(e[1:])
                 a = alive.get(m_, False)
